@@ -71,6 +71,7 @@ class Handoff:
     outcome: Outcome
     active_at_start: int
     state_at_start: XknxConnectionState
+    rate_limit_at_start: Any = None
     t_end: float | None = None
     raised: str | None = None
     raw: bytes | None = None
@@ -156,6 +157,7 @@ class FakeInterface:
             outcome=outcome,
             active_at_start=self.active,
             state_at_start=self.xknx.connection_manager.state,
+            rate_limit_at_start=self.xknx.rate_limit,
         )
         self.handoffs.append(ho)
         self.timeline.append(("start", index, ho.t_start))
